@@ -287,6 +287,7 @@ def check_events(evs):
 WORKER = r'''
 import sys, os, asyncio, random, time
 sys.path.insert(0, %(repo)r)
+sys.path.insert(1, %(verif)r)
 import ebpfcat.lock as L
 from ebpfcat.lock import LockFile, ParallelMailboxLock
 path, who, m, seed = sys.argv[1], int(sys.argv[2]), int(sys.argv[3]), int(sys.argv[4])
@@ -316,7 +317,7 @@ class FcntlProxy:
 L_fcntl = L.fcntl
 L.os = OSProxy()
 L.fcntl = FcntlProxy()
-async def main():
+async def main(loop):
     lf = LockFile(path, 1000, 1100)
     log = os.open(path + ".log", os.O_WRONLY | os.O_APPEND | os.O_CREAT)
 
@@ -365,13 +366,53 @@ async def main():
             del lock, lf2
             for _ in range(rng.randint(1, 6)):
                 await asyncio.sleep(0)
+    # a user that gives up: its attempt is cancelled after a number of
+    # loop iterations, which may be while it waits for a task of its own
+    # process, for another process, or during its exchange
+    async def attempt(lock, no):
+        async with lock:
+            c = lock.next_counter()
+            os.write(log, b"S %%d %%d %%d\n" %% (who, c, no))
+            try:
+                await asyncio.sleep(0)
+            finally:
+                os.write(log, b"E %%d %%d %%d\n" %% (who, c, no))
+
+    async def quitter(no):
+        lock = locks[no]
+        for i in range(max(m // 4, 3)):
+            t = asyncio.ensure_future(attempt(lock, no))
+            for _ in range(rng.choice([0, 1, 2, 3, 5, 8, 13, 40, 200])):
+                await asyncio.sleep(0)
+                if t.done():
+                    break
+            if not t.done():
+                os.write(log, b"C %%d 0 %%d\n" %% (who, no))
+            t.cancel()
+            try:
+                await t
+            except asyncio.CancelledError:
+                pass
+            await asyncio.sleep(0)
     users = [user(1042), user(1043), user(1042)]
+    if sys.argv[8] == "1":
+        users.append(quitter(1042))
     if sys.argv[7] == "2":
         users.append(user(101042))
     if sys.argv[6] == "1":
         users.append(visitor())
     await asyncio.gather(*users)
-asyncio.run(main())
+from vf import aio
+try:
+    # the virtual loop raises Idle when no callback is ready and no timer
+    # is set while main() has not finished: every task of this process
+    # waits for something that nobody will ever do
+    aio.run(main, max_iterations=10**9, wall_limit=100)
+except aio.Idle as ex:
+    sys.stderr.write("DEADLOCK %%s" %% ex)
+    sys.exit(7)
+except aio.WallClock:
+    sys.exit(8)
 '''
 
 
@@ -379,14 +420,16 @@ def xproc_round(rng, tmpdir, res):
     nproc = rng.choice([2, 3])
     m = rng.randint(20, 60)
     path = os.path.join(tmpdir, f"x{rng.getrandbits(30)}")
-    script = WORKER % dict(repo=REPO)
+    script = WORKER % dict(repo=REPO, verif=VERIF_ROOT)
     delays = rng.random() < 0.7
     visitor = rng.random() < 0.5
     loops = rng.choice([1, 2])
+    quitter = rng.random() < 0.5
     procs = [subprocess.Popen([PYTHON, "-c", script, path, str(w), str(m),
                                str(rng.getrandbits(30)),
                                "1" if delays else "0",
-                               "1" if visitor else "0", str(loops)],
+                               "1" if visitor else "0", str(loops),
+                               "1" if quitter else "0"],
                               stderr=subprocess.PIPE)
              for w in range(nproc)]
     errs = []
@@ -397,12 +440,18 @@ def xproc_round(rng, tmpdir, res):
             p.kill()
             res.inconc("cross-process worker timed out")
             return
+        if p.returncode == 8:
+            res.inconc("cross-process worker: wall-clock watchdog")
+            return
         if p.returncode:
             errs.append(err.decode(errors="replace")[-300:])
     desc = dict(mode="xproc", processes=nproc, exchanges=m,
                 injected_delays=delays, pickled_lock_file_copies=visitor)
     if visitor:
         res.count("xproc_rounds_with_pickled_lock_file_copies")
+    if quitter:
+        desc["cancelled_attempts"] = True
+        res.count("xproc_rounds_with_cancelled_attempts")
     if loops == 2:
         desc["loops"] = 2
         res.count("xproc_rounds_with_two_loops_per_process")
@@ -418,6 +467,9 @@ def xproc_round(rng, tmpdir, res):
             if l[3] != no:
                 continue
             kind, who, c = l[0], int(l[1]), int(l[2])
+            if kind == "C":
+                res.count("xproc_attempts_cancelled_before_their_end")
+                continue
             if kind == "S":
                 if cur is not None and bad is None:
                     bad = ("exclusion", f"terminal {no}: process {who} "
@@ -429,7 +481,7 @@ def xproc_round(rng, tmpdir, res):
     counters = [c for ch in chains.values() for c in ch]
     switches = 0
     for no in chains:
-        ls = [l for l in lines if l[3] == no]
+        ls = [l for l in lines if l[3] == no and l[0] != "C"]
         switches += sum(1 for a, b in zip(ls, ls[1:])
                         if a[0] == "E" and b[0] == "S" and a[1] != b[1])
     res.case(desc, nontrivial=switches > 0)
@@ -438,7 +490,9 @@ def xproc_round(rng, tmpdir, res):
     if errs:
         res.violation("lockfile-creation-window-late-opener-fails"
                       if "not enough values" in errs[0] or
-                      "ValueError" in errs[0] else "unexplained:xproc-worker",
+                      "ValueError" in errs[0] else
+                      "unexplained:xproc-deadlock" if "DEADLOCK" in errs[0]
+                      else "unexplained:xproc-worker",
                       f"worker failed: {errs[0]}", case=desc)
         return
     if bad is None:
